@@ -112,7 +112,8 @@ FAMILY = {'pretty': 'indent', 'pretty_tab': 'indent',
 BEFORE = {'none': 'none', 'complete': 'complete', 'first': 'abandoned',
           'mid': 'abandoned', 'raise': 'raise'}
 
-SHORTCUTS = ('str', 'es5.pretty_print', 'es5.minify_print',
+SHORTCUTS = ('str', 'str-of-unprintable-tree', 'es5.pretty_print',
+             'es5.minify_print',
              'es5.minify_print+obf', 'es5.pretty_print-positional',
              'es5.minify_print-positional')
 OBF_KW = collections.OrderedDict([
@@ -204,6 +205,13 @@ def explicit(L, kind, j):
     text, wc = TEXTS[j]
     tree = L.parser.parse(text, with_comments=wc)
     u = L.unparser
+    if kind == 'str-of-unprintable-tree':
+        # str(node) IS pretty_print(node): where the explicit call raises,
+        # the shortcut has nothing else to return
+        try:
+            return u.pretty_print(malform(L, tree))
+        except Exception as e:
+            return 'RAISED %s' % type(e).__name__
     if kind in ('str', 'es5.pretty_print'):
         a = u.pretty_print(tree)
         b = ''.join(c.text for c in u.pretty_printer(indent_str='  ')(
@@ -234,6 +242,11 @@ def shortcut(L, kind, j, tree):
     text, wc = TEXTS[j]
     if kind == 'str':
         return str(tree)
+    if kind == 'str-of-unprintable-tree':
+        try:
+            return str(malform(L, L.parser.parse(text, with_comments=wc)))
+        except Exception as e:
+            return 'RAISED %s' % type(e).__name__
     if kind == 'es5.pretty_print':
         return L.pkg.es5.pretty_print(text, with_comments=wc)
     if kind == 'es5.minify_print':
@@ -887,12 +900,17 @@ def run(tier, rep):
         limit=8)
     from mc.checks import c14il
     c14il.run(tier, rep, printers)
+    from mc.checks import c14hh
+    c14hh.run(tier, rep)
     rep.cov['rule'] += (
         '.  Interleaved part (c14il.py): one state = one schedule of two '
         'LIVE print calls (generators advanced alternately, every schedule '
         'with the stated number of pre-emptions at fragment boundaries); '
         'each call of each schedule is compared with the fresh-process '
-        'baseline')
+        'baseline.  Helper part (c14hh.py): one state = one sequence of '
+        '<= k calls of es5.pretty_print / es5.minify_print on source text '
+        'from a pool of history-sensitive texts, every call compared with '
+        'the explicit composition computed in a fresh process')
     rep.assumptions += [
         'a call can influence a later call only through (a) the printer '
         'object, (b) the tree objects, (c) global state of calmjs.parse '
@@ -911,6 +929,9 @@ def run(tier, rep):
 
 
 def replay(w):
+    if 'helper_calls' in w:
+        from mc.checks import c14hh
+        return c14hh.replay(w['helper_calls'])
     if 'interleave' in w:
         from mc.checks import c14il
         return c14il.replay(w['interleave'])
